@@ -25,11 +25,11 @@ theorem dcepAttempt_safe {Q : (Bool × (List Nat × Buf)) → Buf → Nat → Pr
 
 set_option maxRecDepth 4096 in
 theorem handleDcepSt_safe (s : St) (sid : Nat) {Q b n} (hs : s.Ok)
-    (h : ∀ s' b' n', s'.Ok → Q s' b' n') : safe T (handleDcepSt s sid) Q b n := by
+    (h : ∀ s' b' n', s'.queue = s.queue → Q s' b' n') : safe T (handleDcepSt s sid) Q b n := by
   unfold handleDcepSt
   apply safe_bind; apply safe_remaining
   apply safe_ite <;> intro h0
-  · apply safe_pure; exact h _ _ _ hs
+  · apply safe_pure; exact h _ _ _ rfl
   apply safe_bind; apply safe_peek (by omega); intro mt _
   apply safe_ite <;> intro h1
   · apply safe_bind; apply safe_restSlice; intro body _
@@ -37,15 +37,15 @@ theorem handleDcepSt_safe (s : St) (sid : Nat) {Q b n} (hs : s.Ok)
     apply dcepAttempt_safe
     intro r n'
     apply safe_ite <;> intro h2
-    · apply safe_pure; exact h _ _ _ hs
+    · apply safe_pure; exact h _ _ _ rfl
     · split
       · apply safe_pure
         apply h
-        unfold St.Ok St.emit at *
+        unfold St.emit
         repeat' split
-        all_goals (first | exact hs | (dsimp only; exact hs))
-      · apply safe_pure; exact h _ _ _ hs
-  · apply safe_pure; exact h _ _ _ hs
+        all_goals rfl
+      · apply safe_pure; exact h _ _ _ rfl
+  · apply safe_pure; exact h _ _ _ rfl
 
 attribute [local irreducible] handleDcepSt
 
@@ -56,7 +56,7 @@ macro "ok_frame" hs:ident : tactic => `(tactic| (unfold St.Ok at *; first
   | (repeat' split; all_goals (first | exact $hs | (simp only [apply_ite St.queue, St.emit, ite_self]; exact $hs)))))
 
 theorem processData_safe (s : St) (v : Array UInt8) {Q b n} (hs : s.Ok) (hv : 12 ≤ v.size)
-    (h : ∀ s' n', s'.Ok → Q s' b n') : safe T (processData s v) Q b n := by
+    (h : ∀ s' n', s'.Ok → s'.queue = s.queue → Q s' b n') : safe T (processData s v) Q b n := by
   unfold processData
   apply safe_bind; apply safe_onBuf
   apply safe_bind; apply safe_advance (by simp; omega); intro b1 hb1
@@ -66,10 +66,10 @@ theorem processData_safe (s : St) (v : Array UInt8) {Q b n} (hs : s.Ok) (hv : 12
   apply safe_bind; apply safe_getU32 (by omega); intro ppid b4 _ hb4
   apply safe_ite <;> intro hp
   · apply handleDcepSt_safe _ _ hs
-    intro s' b' n' hs'
-    apply safe_pure; exact h _ _ hs'
+    intro s' b' n' hq
+    apply safe_pure; exact h _ _ (by unfold St.Ok; rw [hq]; exact hs) hq
   · cur_auto
-    exact h _ _ hs
+    exact h _ _ hs rfl
 
 attribute [local irreducible] processData
 
@@ -124,7 +124,7 @@ theorem processBatch_safe (l : List (Nat × Nat × Array UInt8)) (s : St) {Q b n
     unfold processBatch
     apply safe_bind
     apply processData_safe _ _ hs (hl e (by simp))
-    intro s' n' hs'
+    intro s' n' hs' _
     apply safe_ite <;> intro hf
     · apply safe_pure; exact h _ _ hs'
     · apply ih _ _ (fun x hx => hl x (by simp [hx]))
@@ -144,7 +144,7 @@ theorem handleDataSt_safe (s : St) (flags : Nat) (v : Array UInt8) {Q b n} (hs :
   apply safe_ite <;> intro hfast
   · apply safe_bind
     apply processData_safe _ _ hs (by omega)
-    intro s' n' hs'
+    intro s' n' hs' _
     apply safe_pure
     apply h
     split
@@ -219,6 +219,31 @@ theorem handleSackSt_safe (s : St) {Q b n} (hs : s.Ok)
     · intro _ _; trivial
   · apply safe_pure; exact h _ _ _ hs
 
+theorem fwdDrain_safe (s : St) (fuel : Nat) {Q b n} (hf : s.queue.length < fuel) (hs : s.Ok)
+    (h : ∀ s' b' n', s'.Ok → Q s' b' n') : safe T (loopM fwdDrainBody fuel s) Q b n := by
+  apply safe_loop (fun s' _ _ => s'.Ok) (fun s' _ => s'.queue.length)
+  · intro s' b' n' hs'
+    unfold fwdDrainBody
+    dsimp only
+    split
+    · apply safe_pure; exact h _ _ _ hs'
+    · rename_i e he
+      have hmem := List.mem_of_find?_eq_some he
+      have hp : e.1 = u32add s'.cum 1 := by simpa using List.find?_some he
+      have hlt := filter_tsn_lt s'.queue _ e hmem hp
+      apply safe_bind
+      apply processData_safe _ _ (show St.Ok { s' with queue := s'.queue.filter (fun x => decide (x.1 ≠ u32add s'.cum 1)) } from qok_filter _ hs') (hs' e hmem)
+      intro s'' n'' hs'' hq''
+      apply safe_ite <;> intro hfail
+      · apply safe_pure; exact h _ _ _ hs''
+      · apply safe_pure
+        refine ⟨?_, ?_⟩
+        · unfold St.Ok at *; exact hs''
+        · show s''.queue.length < s'.queue.length
+          rw [hq'']; exact hlt
+  · exact hs
+  · exact hf
+
 theorem handleForwardTsnSt_safe (s : St) {Q b n} (hs : s.Ok)
     (h : ∀ s' b' n', s'.Ok → Q s' b' n') : safe T (handleForwardTsnSt s) Q b n := by
   unfold handleForwardTsnSt
@@ -228,7 +253,9 @@ theorem handleForwardTsnSt_safe (s : St) {Q b n} (hs : s.Ok)
   apply safe_bind; apply safe_getU32 (by omega); intro new b1 _ hb1
   apply safe_bind; apply safe_remaining
   apply safe_bind
-  apply safe_loop (Q := fun _ b' n' => safe T (if new > s.cum then pure { s with cum := new, queue := s.queue.filter (fun e => decide (e.1 > new)) } else pure s) Q b' n')
+  apply safe_loop (Q := fun _ b' n' => safe T (if tsnGt new s.cum = true then
+        loopM fwdDrainBody (({ s with cum := new, queue := s.queue.filter (fun e => tsnGt e.1 new) } : St).queue.length + 1)
+          { s with cum := new, queue := s.queue.filter (fun e => tsnGt e.1 new) } else pure s) Q b' n')
     (fun _ _ _ => True) (fun _ b' => b'.rem)
   · intro i b' n' _
     unfold fwdPairsBody
@@ -236,7 +263,8 @@ theorem handleForwardTsnSt_safe (s : St) {Q b n} (hs : s.Ok)
     apply safe_ite <;> intro hc
     · apply safe_pure
       apply safe_ite <;> intro h1
-      · apply safe_pure; apply h; exact qok_filter _ hs
+      · apply fwdDrain_safe _ _ (Nat.lt_succ_self _) (show St.Ok { s with cum := new, queue := s.queue.filter (fun e => tsnGt e.1 new) } from qok_filter _ hs)
+        exact h
       · apply safe_pure; exact h _ _ _ hs
     · apply safe_bind; apply safe_getU16 (by omega); intro a b2 _ hb2
       apply safe_bind; apply safe_getU16 (by omega); intro c b3 _ hb3
